@@ -44,16 +44,19 @@ def showOB : Option Bool → String
   | some true => "1"
   | some false => "0"
 
-def modelSel (A : Arr) : List String :=
-  let n := numVars A
+def modelSelN (A : Arr) (n : Nat) : List String :=
   [showVal (satWitness A), showVal (firstValuation A), showVal (lastValuation A),
    showVal (mostPositiveValuation A), showVal (mostNegativeValuation A),
    showClause n (firstClause A), showClause n (lastClause A),
    showClause n (mostFixedClause A), showClause n (mostFreeClause A),
    showClause n (necessaryClause A), showOB (isClause A), showOB (isValuation A)]
 
-def modelRand (A : Arr) (fl : List Bool) : List String :=
-  [showVal (randomValuation A fl), showClause (numVars A) (randomClause A fl)]
+def modelSel (A : Arr) : List String := modelSelN A (numVars A)
+
+def modelRandN (A : Arr) (n : Nat) (fl : List Bool) : List String :=
+  [showVal (randomValuation A fl), showClause n (randomClause A fl)]
+
+def modelRand (A : Arr) (fl : List Bool) : List String := modelRandN A (numVars A) fl
 
 /-! ### brute-force oracles (independent of the model) -/
 
@@ -72,10 +75,12 @@ def pathsFrom (A : Arr) (n : Nat) : Nat → Nat → List (Nat × Bool) → List 
       let nd := A[p]?.getD default
       pathsFrom A n fuel nd.low ((nd.var, false) :: acc) ++ pathsFrom A n fuel nd.high ((nd.var, true) :: acc)
 
-def allPaths (A : Arr) : List String :=
+def allPathsN (A : Arr) (n : Nat) : List String :=
   if A.size < 2 then [] else
-  let n := numVars A
   (pathsFrom A n (n + 2) (root A) []).map fun s => if s.isEmpty then "~" else s
+
+/-- value of the diagram under `v`, for a declared variable count `n` (does not read the terminal entries) -/
+def evalN (A : Arr) (n : Nat) (v : Nat → Bool) : Bool := evalF A v (n + 2) (root A)
 
 def fixedCount (s : String) : Nat := (s.toList.filter fun c => c == '0' || c == '1').length
 
@@ -157,7 +162,7 @@ def checkSelPaths (A : Arr) (o : Oracle) (obs : List String) : Option String :=
       let minF := counts.foldl min o.n
       let satisfies (x : String) (what : String) : Option String :=
         if x == "none" || x == "panic" then some (what ++ "-missing")
-        else if (parseBits x).length == o.n && evalArr A (valOfBits (parseBits x)) then none
+        else if (parseBits x).length == o.n && evalN A o.n (valOfBits (parseBits x)) then none
         else some (what ++ "-not-satisfying")
       firstFail [
         satisfies wit "sat_witness", satisfies fv "first_valuation", satisfies lv "last_valuation",
@@ -175,18 +180,20 @@ def checkRand (A : Arr) (o : Oracle) (obs : List String) : Option String :=
       firstFail ([rv, rc].map fun x => if x == "none" then none else some "none-on-contradiction")
     else
       firstFail [
-        if rv != "none" && rv != "panic" && (parseBits rv).length == o.n && evalArr A (valOfBits (parseBits rv)) then none
+        if rv != "none" && rv != "panic" && (parseBits rv).length == o.n && evalN A o.n (valOfBits (parseBits rv)) then none
           else some "random_valuation-not-satisfying",
         if o.paths.contains rc then none else some "random_clause-not-a-path"]
   | _ => some "arity"
 
-def oracleOf (A : Arr) : Oracle :=
-  let n := numVars A
-  let sat := if n ≤ maxTT then
-      let tt := ttOf A n
-      (List.range (2 ^ n)).filter fun i => tt[i]!
-    else []
-  { n, sat, paths := allPaths A }
+def oracleOfN (A : Arr) (n : Nat) : Oracle :=
+  let sat := if n ≤ maxTT then (List.range (2 ^ n)).filter fun i => evalN A n (valOfIndex n i) else []
+  { n, sat, paths := allPathsN A n }
+
+def oracleOf (A : Arr) : Oracle := oracleOfN A (numVars A)
+
+/-- the terminal entries of a result are exactly `(n,0,0)` and `(n,1,1)` -/
+def terminalsExact (A : Arr) (n : Nat) : Bool :=
+  A[0]? == some ⟨n, 0, 0⟩ && (A.size < 2 || A[1]? == some ⟨n, 1, 1⟩)
 
 def hasGap (A : Arr) : Bool :=
   A.size > 2 && ((A[root A]?.getD default).var > 0 ||
@@ -220,10 +227,49 @@ def handle (key : String) (ins obs : List String) : Verdict :=
       if !isCanon A then Verdict.bad "input not canonical (harness bug)" else
       let fl := parseBits f
       let model := modelRand A fl
-      let o : Oracle := { n := numVars A, sat := [], paths := allPaths A }
+      let o : Oracle := { n := numVars A, sat := [], paths := allPathsN A (numVars A) }
       { agree := model == obs, model := " ".intercalate model, fail := checkRand A o obs, nontrivial := A.size > 2,
         tags := tagsOf "rand" A ++ [if fl.length < numVars A then "shortflips" else "flips"] }
     | none => Verdict.bad "args"
+  | "C11.op", n :: op :: _ =>
+    -- the selectors ran on the RESULT of a library operation; `n` is the variable count that result must have
+    match n.toNat?, obs with
+    | some _, ["oppanic"] =>
+      { agree := true, model := "", fail := none, nontrivial := false, tags := ["op", op, "oppanic"] }
+    | some n, res :: sel =>
+      match parseArr? res with
+      | some A =>
+        let model := modelSelN A n
+        let o := oracleOfN A n
+        let fail := firstFail [
+          if terminalsExact A n then none else some "terminals-exact",
+          if sel.contains "panic" then some "selector-panics" else none,
+          checkSelPaths A o sel, if n ≤ maxTT then checkSelTT o sel else none]
+        { agree := model == sel, model := " ".intercalate model, fail, nontrivial := A.size > 2,
+          tags := ["op", op, if A.size ≤ 2 then "const" else "nonconst", if isCanon A then "canon" else "noncanon"] ++
+            (match sel with
+             | [_, _, _, _, _, _, _, _, _, _, isc, isv] => [if isc == "1" then "cube" else "noncube", if isv == "1" then "single" else "nonsingle"]
+             | _ => []) }
+      | none => Verdict.bad "result"
+    | _, _ => Verdict.bad "args"
+  | "C11.oprand", n :: op :: rest =>
+    match n.toNat?, obs with
+    | some _, ["oppanic"] =>
+      { agree := true, model := "", fail := none, nontrivial := false, tags := ["oprand", op, "oppanic"] }
+    | some n, res :: sel =>
+      match parseArr? res with
+      | some A =>
+        let fl := parseBits (rest.getLast?.getD "~")
+        let model := modelRandN A n fl
+        let o : Oracle := { n, sat := [], paths := allPathsN A n }
+        let fail := firstFail [
+          if terminalsExact A n then none else some "terminals-exact",
+          if sel.contains "panic" then some "selector-panics" else none,
+          checkRand A o sel]
+        { agree := model == sel, model := " ".intercalate model, fail, nontrivial := A.size > 2,
+          tags := ["oprand", op, if fl.length < n then "shortflips" else "flips"] }
+      | none => Verdict.bad "result"
+    | _, _ => Verdict.bad "args"
   | "C11.nc", [a] =>
     -- non-canonical input: the property makes no claim, only the model must follow the code (panics included)
     match parseArr? a with
